@@ -398,6 +398,34 @@ def runTwoPool (line : String) : String :=
   let c := (fun m => let (m1, i) := newSub m false 0 .fast; quiesce fuel0 (runSub 100 m1 i)) (mkSim 1000 5 5)
   s!"ok gaugeA={a.s.busy} ranA={a2.s.finished.length} hanA={a2.s.handlerLog.length} hanB={b.s.handlerLog.length} countC={c.s.count}"
 
+/-- run `n` jobs (those whose index satisfies `pan` panic at once) one after the other on a pool of `mx` standby
+    workers and return the final simulator state -/
+def runJobs (mx n : Nat) (pan : Nat → Bool) : Sim :=
+  (List.range n).foldl (fun acc j =>
+    let (m1, i) := newSub acc false j (if pan j then .pnow 1 else .fast)
+    quiesce fuel0 (runSub 100 m1 i))
+    (startPool { c := { max := mx, standby := mx, batch := 0, chanCap := 64, buf := 0, closeQueue := true, atomicExpiry := true } })
+
+/-- `defhandler kinds=<k>`: a pool with the default panic handler; k jobs panicking with values of different
+    kinds, each followed by an ordinary job: whatever the value, the panic is recovered and reported, the worker
+    is replaced and the next job runs — all 2k jobs run once. -/
+def runDefHandler (line : String) : String :=
+  let k := cfgVal ((line.splitOn " ").filter (· ≠ "")) "kinds" 6
+  let m := runJobs 2 (2 * k) (fun j => j % 2 == 0)
+  if (List.range (2 * k)).all (fun j => m.s.started.count j == 1) then s!"ok ran={m.s.finished.length} panics={m.s.handlerLog.length} survived"
+  else "model-incomplete"
+
+/-- `invoke k=<k> max=<m>`: m gated blockers occupy the workers, k values are invoked with the old callee, SetCallee,
+    k more with the new one, then the blockers are released: every accepted job is the closure (callee in force,
+    value) and runs exactly once — old callee k calls, new callee k calls. -/
+def runInvoke (line : String) : String :=
+  let toks := (line.splitOn " ").filter (· ≠ "")
+  let k := cfgVal toks "k" 3
+  let mx := cfgVal toks "max" 2
+  let m := runJobs mx (mx + 2 * k) (fun _ => false)
+  if (List.range (mx + 2 * k)).all (fun j => m.s.started.count j == 1) then s!"ok old={k} new={k}"
+  else "model-incomplete"
+
 /-- protocol entry point -/
 def handle (line : String) : String :=
   if line.startsWith "sched " then
@@ -407,6 +435,8 @@ def handle (line : String) : String :=
     | _ => "bad-line"
   else if line.startsWith "stress " then runStress (line.drop 7).toString
   else if line.startsWith "twopool " then runTwoPool (line.drop 8).toString
+  else if line.startsWith "defhandler " then runDefHandler (line.drop 11).toString
+  else if line.startsWith "invoke " then runInvoke (line.drop 7).toString
   else "bad-line"
 
 /-! ### spec-level judge
@@ -485,6 +515,8 @@ def judge (line impl : String) : String :=
   else if hasSub impl "viol" then s!"violation monitor: {impl}"
   else if impl == "hang" || impl == "crash" || impl == "panic" then s!"violation the pool {impl}s (a job or the harness never returns / the process dies)"
   else if line.startsWith "twopool " then s!"violation two-pool summary {impl}, the property prescribes {exp}"
+  else if line.startsWith "defhandler " || line.startsWith "invoke " then
+    s!"violation summary {impl}, the property prescribes {exp}"
   else if line.startsWith "stress " then
     if impl.startsWith "note" then "allowed worker bookkeeping differs (not a statement of the property): " ++ impl
     else s!"violation stress summary {impl}, the property prescribes {exp}"
